@@ -13,7 +13,8 @@ def yields_for(tock):
 
 @st.composite
 def leaf(draw, tock, *, faults=False, members=False, depth=0, max_steps=6, forever_ok=True,
-         enter_ret=True, yields=None, npool=0, kinds=None, split_yields=False, group_ops=False):
+         enter_ret=True, yields=None, npool=0, kinds=None, split_yields=False, group_ops=False, enter_ops=False,
+         enter_up=None):
     k = draw(st.sampled_from(kinds or ALL_KINDS))
     ys = yields if yields is not None else yields_for(tock)
     if split_yields:
@@ -63,7 +64,21 @@ def leaf(draw, tock, *, faults=False, members=False, depth=0, max_steps=6, forev
     else:
         end = draw(st.one_of(st.sampled_from(RETS).map(lambda v: ["ret", v]),
                              *([st.just(["forever"])] if forever_ok else [])))
-    return {"k": k, "tock": draw(yv) or 0.0, "enter": enter, "steps": steps, "end": end}
+    out = {"k": k, "tock": draw(yv) or 0.0, "enter": enter, "steps": steps, "end": end}
+    if enter_ops and members and draw(st.integers(0, 2)) == 0:
+        # a membership call made from the doer's enter context: while the scheduler's own enter() is still entering its
+        # doers (first cycle, or a DoDoer that is itself extended into a running scheduler at a later cycle)
+        op = draw(st.sampled_from(["extend", "extend", "remove"]))
+        up = draw(st.integers(0, depth if enter_up is None else min(depth, enter_up))) if depth else 0
+        if op == "extend" and npool:
+            tg = st.one_of(st.tuples(st.just("pool"), st.integers(0, npool - 1)),
+                           st.tuples(st.just("pool"), st.integers(0, npool - 1)),
+                           st.tuples(st.just("live"), st.integers(0, 7)))
+        else:
+            tg = st.one_of(st.tuples(st.just("live"), st.integers(0, 7)), st.tuples(st.just("live"), st.integers(0, 7)),
+                           st.tuples(st.just("self")))
+        out["enter_act"] = [op, up, draw(st.lists(tg.map(list), min_size=1, max_size=2))]
+    return out
 
 
 @st.composite
@@ -99,7 +114,8 @@ def has_unbounded(n):
 def program(draw, *, faults=False, members=False, maxdepth=2, max_leaves=6, limit="maybe",
             dd_tocks=(0.0,), always_ok=False, forever_ok=True, enter_ret=True, max_steps=6,
             start_tymes=(0.0, 0.0, 1.0, 10.5, 0.1), tocks=None, kinds=None, restrict_yields=None,
-            split_yields=False, dd_odds=2, force_always=False, prerun_ok=False, group_ops=False, min_leaves=1):
+            split_yields=False, dd_odds=2, force_always=False, prerun_ok=False, group_ops=False, min_leaves=1,
+            enter_ops=False):
     tock = draw(st.sampled_from(tocks or TOCKS))
     npool = draw(st.integers(1, 3)) if members else 0
     ys = None
@@ -107,6 +123,8 @@ def program(draw, *, faults=False, members=False, maxdepth=2, max_leaves=6, limi
         ys = restrict_yields(tock)
     opts = dict(faults=faults, members=members, max_steps=max_steps, forever_ok=forever_ok,
                 enter_ret=enter_ret, yields=ys, npool=npool, kinds=kinds, split_yields=split_yields, group_ops=group_ops)
+    if enter_ops:
+        opts["enter_ops"] = True
     budget = [draw(st.integers(min_leaves, max_leaves))]
     doers = []
     while budget[0] > 0 and len(doers) < 6:
@@ -115,6 +133,15 @@ def program(draw, *, faults=False, members=False, maxdepth=2, max_leaves=6, limi
     for _ in range(npool):
         popts = dict(opts)
         popts["members"] = False
+        popts.pop("enter_ops", None)       # a pool doer's own enter context makes no call (it is entered inside extend())
+        if enter_ops and draw(st.integers(0, 2)) == 0:
+            # a DoDoer(always) waiting in the pool: when a running doer extends it into a scheduler at some later cycle,
+            # the enter context of one of its children calls extend / remove on it while it is entering its children
+            kopts = dict(opts)
+            kopts["enter_up"] = 0
+            kids = [draw(leaf(tock, depth=1, **kopts)) for _ in range(draw(st.integers(1, 3)))]
+            pool.append({"k": "dodoer", "tock": 0.0, "always": True, "kids": kids})
+            continue
         pool.append(draw(leaf(tock, depth=0, **popts)))
     lim = None
     if limit == "always" or (limit == "maybe" and draw(st.booleans())):
